@@ -3,3 +3,4 @@
 pub use crate::comms::verif_hooks_reconfunits::*;
 pub use crate::targets::verif_hooks_reconfunits::null_target;
 pub use crate::units::verif_filter_reconfunits as filter;
+pub use crate::manager::verif_hooks_reconfunits::component_with_http;
